@@ -340,7 +340,7 @@ def check_function(item):
                 else:
                     verdicts.append(("inconclusive", "unknown"))
             if not judged:
-                verdicts.append(("unencoded", "no published equation with a total argument/result mapping (derivative/integral law, functions, or unmapped symbols)"))
+                verdicts.append(function_law_verdict(ses, p, info, sig, eqs, scal, core, par2sym, wrapped, magnitude_allowed, rs))
         out["queries"], out["solver_s"] = ses.queries, ses.solver_s
         kinds = [v[0] for v in verdicts]
         if "candidate" in kinds:
@@ -355,6 +355,91 @@ def check_function(item):
         else:
             out.update(verdict="unencoded", why=verdicts[0][1] if verdicts else "nothing judged")
     return out
+
+
+def function_law_verdict(ses, p, info, sig, eqs, scal, core, par2sym, wrapped, magnitude_allowed, rs):
+    """laws about functions (derivative / integral / two instants): see checks/c02_funclaws.py"""
+    from checks import c02_funclaws as FL
+    reason = "no published equation with a total argument/result mapping (unmapped symbols)"
+    for ename, eq in eqs:
+        if ename.split("[")[0] not in ("law", "definition", "condition", "conditions", "derived_law") or not FL.has_function_atoms(eq):
+            continue
+        fresh = lambda n: VS(n)
+        try:
+            variants = [FL.instantiate(info, list(sig.parameters), eq, scal, core, par2sym, fresh)]
+            if wrapped is None and magnitude_allowed:
+                variants.append(FL.instantiate(info, list(sig.parameters), eq, scal, -core, par2sym, fresh))
+        except FL.NotApplicable as e:
+            reason = f"function law {ename}: {e}"
+            continue
+        except Exception as e:
+            reason = f"function law {ename}: instantiation raises {type(e).__name__}"
+            continue
+        stray = [s for alts, _ in variants for (L, R) in alts for s in (L - R).free_symbols if not isinstance(s, VS)]
+        if stray:
+            reason = f"function law {ename}: unmapped symbols {sorted(map(str, set(stray)))[:4]}"
+            continue
+        try:
+            def far(L, R):
+                L, R = nice(L), nice(R)
+                d = ses.z(L) - ses.z(R)
+                az = z3.If(d >= 0, d, -d)
+                mags = []
+                for t in list(sp.Add.make_args(sp.expand(L))) + list(sp.Add.make_args(sp.expand(R))):
+                    tz = ses.z(t)
+                    mags.append(z3.If(tz >= 0, tz, -tz))
+                return z3.And(az > qv(Fraction(1, 10**9)) * z3.Sum(mags), az > 0)
+            goal = [far(L, R) for alts, _ in variants for (L, R) in alts]
+            side = [ses.z(sp.sympify(nz)) != 0 for _, nzs in variants[:1] for nz in nzs]
+            r, m = ses.check(p.pc + side + goal)
+        except (Unencodable, LiftUnsupported) as e:
+            reason = f"function law {ename}: {str(e)[:60]}"
+            continue
+        if r == "unsat":
+            return ("discharged", f"{ename} read with the straight line through the declared samples ({len(variants[0][0])} evaluation point(s))" + (f" (inside {wrapped})" if wrapped else ""))
+        if r == "sat":
+            vals = {pn: str(model_value(m, ses.z(s))) for pn, s in scal.items()}
+            return ("candidate", f"equation {ename}, read with the straight line through the declared samples, is not satisfied by the returned value {rs}", p, vals, "F:" + ename)
+        return ("inconclusive", "unknown")
+    return ("unencoded", reason)
+
+
+REPLAY_F = r'''
+import sys, inspect
+import sympy as sp
+from checks import c02, c02_funclaws as FL
+from vlib import catalogue
+from symplyphysics import Quantity
+from symplyphysics.core.symbols.symbols import DimensionSymbol
+from sympy.physics.units import Quantity as SymQuantity
+modname, fname, domain = {item!r}; vals = {vals!r}; ename = {ename!r}; magnitude = {magnitude!r}
+mod = catalogue.load(modname); fn = getattr(mod, fname)
+info = catalogue.decorator_info(fn); inner = info["inner"]; sig = inspect.signature(inner)
+args = {{}}; scal = {{}}; par2sym = {{}}
+for pname, p in sig.parameters.items():
+    spec = info["inputs"].get(pname); v = sp.Rational(vals.get(pname, "3/2")); scal[pname] = v
+    if spec is None: args[pname] = float(v); continue
+    d = spec.dimension if isinstance(spec, DimensionSymbol) else spec
+    args[pname] = Quantity(v, dimension=d.subs("angle", 1))
+    if isinstance(spec, sp.Symbol) and isinstance(spec, DimensionSymbol): par2sym[pname] = spec
+res = fn(**args)
+rs = res.scale_factor if isinstance(res, SymQuantity) else sp.sympify(res)
+print("arguments (internal scale factors):", scal, "-> result", rs)
+if rs.free_symbols:
+    print("REPRODUCED: result depends on unbound symbols", rs.free_symbols); sys.exit(1)
+core = rs.args[0] if isinstance(rs, (sp.Abs, sp.ceiling)) else rs
+eq = dict(catalogue.public_equations(mod))[ename]
+ok = False
+for c in ([core, -core] if magnitude else [core]):
+    alts, nonzero = FL.instantiate(info, list(sig.parameters), eq, scal, c, par2sym, lambda n: sp.Rational(7, 3))
+    for L, R in alts:
+        Ln, Rn = sp.N(L, 30), sp.N(R, 30)
+        scale = sum(abs(sp.N(t, 30)) for t in list(sp.Add.make_args(sp.expand(L))) + list(sp.Add.make_args(sp.expand(R))))
+        print("equation", ename, ":", eq, "with the straight line through the samples: lhs", Ln, " rhs", Rn)
+        if abs(Ln - Rn) <= 1e-6 * scale: ok = True
+if not ok:
+    print("REPRODUCED"); sys.exit(1)
+'''
 
 
 REPLAY = r'''
@@ -470,8 +555,10 @@ def run(ctx):
         elif v in ("unencoded", "inconclusive"):
             ctx.ob(r["name"], v, r["why"])
         else:
+            en = r.get("ename")
+            script = REPLAY_F if (en or "").startswith("F:") else REPLAY
             ctx.violation(f"C02:{r['name']}", f"{r['name']}: {r['why']} (mapping {r.get('par2sym')}, returned {r.get('result')})",
-                          REPLAY.format(item=tuple(r["item"]), vals=r.get("vals") or {}, ename=r.get("ename"), magnitude=r.get("magnitude", False)))
+                          script.format(item=tuple(r["item"]), vals=r.get("vals") or {}, ename=(en[2:] if (en or "").startswith("F:") else en), magnitude=r.get("magnitude", False)))
     from checks import c02_vectors
     c02_vectors.run(ctx, TIMEOUT_MS)
     ctx.extra["calculate_functions"] = len(funcs)
